@@ -626,14 +626,18 @@ char* MemoryLeakDetector::allocMemory(TestMemoryAllocator* allocator, size_t siz
 
 char* MemoryLeakDetector::allocateMemoryWithAccountingInformation(TestMemoryAllocator* allocator, size_t size, const char* file, size_t line, bool allocatNodesSeperately)
 {
-    if (allocatNodesSeperately) return allocator->alloc_memory(sizeOfMemoryWithCorruptionInfo(size), file, line);
-    else return allocator->alloc_memory(sizeOfMemoryWithCorruptionInfo(size) + sizeof(MemoryLeakDetectorNode), file, line);
+    size_t accountedSize = sizeOfMemoryWithCorruptionInfo(size);
+    if (!allocatNodesSeperately) accountedSize += sizeof(MemoryLeakDetectorNode);
+    if (accountedSize < size) return NULLPTR; /* the request does not fit in size_t once the bookkeeping is added */
+    return allocator->alloc_memory(accountedSize, file, line);
 }
 
 char* MemoryLeakDetector::reallocateMemoryWithAccountingInformation(TestMemoryAllocator* /*allocator*/, char* memory, size_t size, const char* /*file*/, size_t /*line*/, bool allocatNodesSeperately)
 {
-    if (allocatNodesSeperately) return (char*) PlatformSpecificRealloc(memory, sizeOfMemoryWithCorruptionInfo(size));
-    else return (char*) PlatformSpecificRealloc(memory, sizeOfMemoryWithCorruptionInfo(size) + sizeof(MemoryLeakDetectorNode));
+    size_t accountedSize = sizeOfMemoryWithCorruptionInfo(size);
+    if (!allocatNodesSeperately) accountedSize += sizeof(MemoryLeakDetectorNode);
+    if (accountedSize < size) return NULLPTR; /* the request does not fit in size_t once the bookkeeping is added */
+    return (char*) PlatformSpecificRealloc(memory, accountedSize);
 }
 
 MemoryLeakDetectorNode* MemoryLeakDetector::createMemoryLeakAccountingInformation(TestMemoryAllocator* allocator, size_t size, char* memory, bool allocatNodesSeperately)
